@@ -161,7 +161,7 @@ Inductive diag :=
 | DMulti (t : nat) | DBindMissing (i c : nat) | DCycle (l : list nat) | DFuel
 | DNoProvider (t : nat)
 | DUnusedSet (sid : nat) | DUnusedProv (id : nat) | DUnusedVal (id : nat) | DUnusedBind (id : nat) | DUnusedField (id : nat)
-| DNeedsCleanup (t : nat) | DNeedsErr (t : nat) | DValueAccess (t : nat)
+| DNeedsCleanup (t : nat) | DNeedsErr (t : nat) | DValueAccess (t : nat) | DProvAccess (t : nat)
 | DItem (code : nat) (t : nat).
 
 Definition diag_of_serr (e : serr) : diag :=
@@ -238,12 +238,18 @@ Definition solve (pm : pmap entry) (root : rset) (args : list nat) (out : nat) :
     end
   end.
 
+(* go/ast.IsExported on the ASCII identifiers of the model *)
+Definition is_exported (s : string) : bool :=
+  match s with String c _ => is_upper c | EmptyString => false end.
+
 (* wire.go:gen.inject, the checks between solve and emission *)
 Definition inject_checks (sig_cleanup sig_err : bool) (cs : list call) : list diag :=
   flat_map (fun c =>
     (if c_cleanup c && negb sig_cleanup then [DNeedsCleanup (c_out c)] else []) ++
     (if c_err c && negb sig_err then [DNeedsErr (c_out c)] else []) ++
-    (if Nat.eqb (c_kind c) 2 && negb (c_vok c) then [DValueAccess (c_out c)] else [])) cs.
+    (if Nat.eqb (c_kind c) 2 then (if negb (c_vok c) then [DValueAccess (c_out c)] else [])
+     else if negb (Nat.eqb (c_pkg c) 0) && negb (forallb is_exported (c_name c :: c_fields c)) then [DProvAccess (c_out c)]
+     else [])) cs.
 
 Inductive stage := StSet | StSolve | StInject.
 
@@ -296,7 +302,8 @@ Definition diag_eqb (a b : diag) : bool :=
   | DMulti x, DMulti y | DNoProvider x, DNoProvider y
   | DUnusedSet x, DUnusedSet y | DUnusedProv x, DUnusedProv y | DUnusedVal x, DUnusedVal y
   | DUnusedBind x, DUnusedBind y | DUnusedField x, DUnusedField y
-  | DNeedsCleanup x, DNeedsCleanup y | DNeedsErr x, DNeedsErr y | DValueAccess x, DValueAccess y => Nat.eqb x y
+  | DNeedsCleanup x, DNeedsCleanup y | DNeedsErr x, DNeedsErr y | DValueAccess x, DValueAccess y
+  | DProvAccess x, DProvAccess y => Nat.eqb x y
   | DBindMissing i c, DBindMissing i' c' | DItem i c, DItem i' c' => Nat.eqb i i' && Nat.eqb c c'
   | DCycle l, DCycle l' => list_eqb Nat.eqb l l'
   | DFuel, DFuel => true
